@@ -38,7 +38,7 @@ def _setup(shape, be, ea, eb, ec, ja, jb, states, hashing=False, hash_sit=0, c_s
             if e:
                 pr.w.file(rel, mtimes[k], "out " + rel)
     with q.notrace() if mtimes is None else _nullctx():
-        for nm, j, jid in (("A", ja, "11"), ("B", jb, "12")):
+        for nm, j, jid in (("A", ja, "0" if be == "local" else "11"), ("B", jb, "12")):     # a fresh worker pool numbers its tasks from 0
             if states[j] != "none":
                 pr.add_tracked(nm, jid, states[j])
         if c_state != "none":
